@@ -75,6 +75,35 @@ def brentq(f, a, b, *args, **kw):
     if (fa > 0) == (fb > 0):
         raise ValueError('f(a) and f(b) must have different signs')
     eng = engine()
+    if not isinstance(fa, Sym) and not isinstance(fb, Sym):
+        # Contract refinement proved on the fly: with concrete end values the
+        # candidate root of a function that is linear between a and b is
+        # a + fa/(fa-fb) (b-a).  It is returned only if z3 proves that *every* root
+        # of f strictly between a and b equals it (and that it is one).
+        kappa = Fraction(fa) / (Fraction(fa) - Fraction(fb))
+        cand = a + kappa * (b - a)
+        rho = z3.Real('brentq_rho!%d' % len(eng.inputs))
+        rp = SymReal(rho)
+        saved = len(eng.alternatives)
+        try:
+            eng.solver.push()
+            if a <= b:
+                eng.solver.add(_zr(a) < rho, rho < _zr(b))
+            else:
+                eng.solver.add(_zr(b) < rho, rho < _zr(a))
+            f_rho = f(rp, *args)
+            f_cand = f(cand, *args)
+            ok = False
+            forked = len(eng.alternatives) != saved
+            del eng.alternatives[saved:]      # forks inside the hypothetical scope are not paths
+            if not forked:
+                r1, _ = eng._check(symx.zbool(f_rho == 0), rho != _zr(cand))
+                r2, _ = eng._check(z3.Not(symx.zbool(f_cand == 0)))
+                ok = (r1 == 'unsat' and r2 == 'unsat')
+        finally:
+            eng.solver.pop()
+        if ok:
+            return cand
     r = eng.fresh_real('brentq_root')
     # neither end is a root and the signs differ: the root is strictly inside
     if a <= b:
